@@ -333,10 +333,18 @@ class Observation:
         )
 
         # Run a single pipeline for the given parameters
+        # Note: a parameter such as 'observation.readout.times' modifies the readout
+        #       of the (copied) observation attached to 'new_processor'
+        readout: Readout = (
+            new_processor.observation.readout
+            if new_processor.observation is not None
+            else self.readout
+        )
+
         try:
             data_tree: "xr.DataTree" = run_pipeline(
                 processor=new_processor,
-                readout=self.readout,
+                readout=readout,
                 outputs=self.outputs,
                 pipeline_seed=self.pipeline_seed,
                 debug=False,  # Not supported in Observation mode
